@@ -111,6 +111,10 @@ def standard_lattice(seed, quick):
         {"kwargs": {"max_iteration": 30}},
         {"kwargs": {"accumulate_weights": True}},
         {"kwargs": {"poolsize": 7, "drawsize": 3}},
+        # proposals / reparameterisations with auxiliary parameters that carry their own prior
+        {"kwargs": {"reparameterisations": {"x0": "periodic"}}},
+        {"kwargs": {"flow_proposal_class": "augmentedflowproposal"}},
+        {"kwargs": {"flow_proposal_class": "gwflowproposal"}, "model": "GW5"},
     ]
     if not quick:
         more = []
